@@ -273,14 +273,14 @@ def judge(case, res):
     for k, snap in enumerate(res["passes"]):
         find = signed_classes(case, k + 1)
         by = {v["name"]: v for v in snap}
-        seen = {}
+        seen, dup = {}, None
         for v in snap:
             if v["name"] not in decl:
                 continue
             for a in v["aliases"]:
                 s, nm = split_alias(a)
-                if nm in seen and nm not in by:
-                    return ("class-structure", "pass %d: %s listed as alias of both %s and %s" % (k + 1, nm, seen[nm], v["name"]))
+                if nm in seen and dup is None:
+                    dup = "pass %d: %s listed as alias of both %s and %s" % (k + 1, nm, seen[nm], v["name"])
                 seen.setdefault(nm, v["name"])
         for nm in decl:
             if nm in by and nm in seen:
@@ -292,6 +292,8 @@ def judge(case, res):
                         "with its own metadata)" % (k + 1, nm, seen[nm]))
             if nm not in by and nm not in seen:
                 return ("class-structure", "pass %d: %s vanished without being anybody's alias" % (k + 1, nm))
+        if dup:
+            return ("class-structure", dup)
         for v in snap:
             nm = v["name"]
             if nm not in decl:
@@ -437,6 +439,17 @@ def hand_cases():
                       {"x": d("state", "0/1", "3/1"), "a0": d("alg", "-2/1", "2/1"),
                        "a1": d("alg", "-1/1", "5/1", "20/1", True, "7/1")},
                       [["a0", "a1", 1, False], ["a1", "x", s, True]]))
+    # parameter-dependent start expressions meeting each other (the comparison must not need a truth value)
+    P = "model H\n parameter Real p1 = 1.5;\n parameter Real p2 = 2.5;\n"
+    out.append(mk(P + " Real x(start = 2 * p1);\n Real a(start = p2);\nequation\n der(x) = x;\n a = x;\nend H;\n",
+                  [{"detect_aliases": True}], {"x": d("state", st="3/1"), "a": d("alg", st="5/2")}, [["a", "x", 1, False]]))
+    out.append(mk(P + " Real x(start = -p1);\n Real a(start = p1);\nequation\n der(x) = x;\n a = -x;\nend H;\n",
+                  [{"detect_aliases": True}], {"x": d("state", st="-3/2"), "a": d("alg", st="3/2")}, [["a", "x", -1, False]]))
+    out.append(mk(P + " Real x;\n Real a(start = p1);\n Real b(start = p2);\n Real c(start = p2);\n"
+                  "equation\n der(x) = x;\n a = -x;\n b + x = 0;\n c = x;\nend H;\n",
+                  [{"detect_aliases": True}], {"x": d("state"), "a": d("alg", st="3/2"), "b": d("alg", st="5/2"),
+                                               "c": d("alg", st="5/2")},
+                  [["a", "x", -1, False], ["b", "x", -1, False], ["c", "x", 1, False]]))
     return out
 
 
@@ -444,7 +457,7 @@ def run(ctx):
     core.check_props(ctx, "C16.v", THEOREMS)
     fp, _ = core.fingerprint(core.REPO + "/src/pymoca/backends/casadi/model.py", {"Model.simplify", "Variable"})
     ctx.notes["source_fingerprint"] = {"model.py:Model.simplify+Variable": fp}
-    n_rand = ctx.scaled(140, 2400)
+    n_rand = ctx.scaled(120, 2400)
     cases = load_corpus()
     n_corpus = len(cases)
     cases += hand_cases()
